@@ -20,12 +20,13 @@ const c36Chain = "verif-c36"
 
 type c36Entry struct {
 	Absent bool   `json:"absent,omitempty"`
-	Block  int    `json:"block"`          // 1 = the block asked for, 2 = another block, 0 = nil block
+	Block  int    `json:"block"`          // 1 = the usual block, 2 = another block, 5/6 = block 1's hash with another parts header, 0 = nil block
 	DH     int    `json:"dh,omitempty"`   // height delta of this precommit
 	DR     int    `json:"dr,omitempty"`   // round delta
 	Type   int    `json:"type,omitempty"` // 0/2 precommit, 1 prevote
 	TS     int    `json:"ts,omitempty"`
-	Sig    string `json:"sig,omitempty"` // "" valid | flip | otherkey | chain | empty
+	After  bool   `json:"after,omitempty"` // DH/DR/Type deviations are written into the entry after signing the regular content
+	Sig    string `json:"sig,omitempty"`   // "" valid | flip | otherkey | chain | empty
 	Aux    int    `json:"aux,omitempty"`
 }
 
@@ -37,7 +38,7 @@ type c36Case struct {
 	Height  int64      `json:"height"`
 	Round   int        `json:"round"`
 	CommitB int        `json:"commit_block"` // block id stored in the commit: 1, 2 or 0 (zero id)
-	AskB    int        `json:"ask_block"`    // block id handed to the verifier (1 or 2)
+	AskB    int        `json:"ask_block"`    // block id handed to the verifier (1, 2, 5 or 6)
 	AskDH   int        `json:"ask_dh,omitempty"`
 	Len     int        `json:"len,omitempty"` // -1 drop the last entry, +1 append a nil entry, +2 append a copy of entry 0
 }
@@ -85,9 +86,28 @@ func c36Reference(c c36Case) c36Ref {
 		oldPower[v.Key] = v.Power
 		r.oldTotal += v.Power
 	}
+	// A signature verifies iff it was made by the validator's key for this chain over exactly the
+	// precommit the verifier reconstructs: commit height and round (those of the first present
+	// entry), the entry's block id and timestamp.
+	var firstE *c36Entry
+	for _, e := range list {
+		if e != nil {
+			firstE = e
+			break
+		}
+	}
+	sigOK := func(e *c36Entry) bool {
+		if e.Sig != "" || firstE == nil {
+			return false
+		}
+		if e.After { // signed as a regular precommit at (Height, Round)
+			return firstE.DH == 0 && firstE.DR == 0
+		}
+		return e.DH == firstE.DH && e.DR == firstE.DR && e.Type != 1
+	}
 	// tallies (meaningful when everything else is in order)
 	for i, e := range ents {
-		if e != nil && e.Block == c.AskB && e.Sig == "" {
+		if e != nil && e.Block == c.AskB && sigOK(e) {
 			r.tally += sorted[i].Power
 			r.oldTally += oldPower[sorted[i].Key]
 		}
@@ -148,7 +168,7 @@ func c36Reference(c c36Case) c36Ref {
 		return reject("wrong block id")
 	}
 	for _, e := range list {
-		if e != nil && e.Sig != "" {
+		if e != nil && !sigOK(e) {
 			return reject("a present signature does not verify")
 		}
 	}
@@ -189,6 +209,9 @@ func c36Build(c c36Case) (newSet, oldSet *types.ValidatorSet, commit *types.Comm
 			BlockID: bftBlockID(e.Block), Timestamp: bftTime(e.TS),
 			ValidatorAddress: bftAddr(v.Key), ValidatorIndex: i,
 		}
+		if e.After {
+			vote.Type, vote.Height, vote.Round = types.PrecommitType, c.Height, c.Round
+		}
 		switch e.Sig {
 		case "":
 			bftSign(v.Key, c36Chain, vote)
@@ -203,6 +226,9 @@ func c36Build(c c36Case) (newSet, oldSet *types.ValidatorSet, commit *types.Comm
 			vote.Signature = nil
 		default:
 			panic("unknown sig defect " + e.Sig)
+		}
+		if e.After {
+			vote.Type, vote.Height, vote.Round = typ, c.Height+int64(e.DH), c.Round+e.DR
 		}
 		sigs[i] = vote.CommitSig()
 	}
@@ -340,7 +366,7 @@ func c36Draw(rt *rapid.T) c36Case {
 		if rapid.IntRange(0, 99).Draw(rt, "absent") < absentPct {
 			e.Absent = true
 		} else if rapid.IntRange(0, 99).Draw(rt, "stray") < strayPct {
-			e.Block = rapid.SampledFrom([]int{0, 2}).Draw(rt, "strayblock")
+			e.Block = rapid.SampledFrom([]int{0, 2, 0, 2, 5, 6}).Draw(rt, "strayblock")
 		}
 		e.TS = rapid.IntRange(0, 3).Draw(rt, "ts")
 		if !e.Absent {
@@ -356,6 +382,9 @@ func c36Draw(rt *rapid.T) c36Case {
 			if roll("typ") {
 				e.Type = 1
 			}
+			if e.DH != 0 || e.DR != 0 || e.Type == 1 {
+				e.After = rapid.Bool().Draw(rt, "after")
+			}
 			if roll("sig") {
 				e.Sig = rapid.SampledFrom([]string{"flip", "otherkey", "chain", "empty"}).Draw(rt, "sigdefect")
 				e.Aux = rapid.IntRange(0, 511).Draw(rt, "aux")
@@ -367,10 +396,10 @@ func c36Draw(rt *rapid.T) c36Case {
 	entryNo = -1
 	c.CommitB, c.AskB = 1, 1
 	if roll("commitb") {
-		c.CommitB = rapid.SampledFrom([]int{0, 2}).Draw(rt, "commitbv")
+		c.CommitB = rapid.SampledFrom([]int{0, 2, 5, 6}).Draw(rt, "commitbv")
 	}
 	if roll("askb") {
-		c.AskB = 2
+		c.AskB = rapid.SampledFrom([]int{2, 5, 6}).Draw(rt, "askbv")
 	}
 	if roll("askdh") {
 		c.AskDH = 1
